@@ -282,6 +282,39 @@ func (st *State) foldPinned(cond *Term) (bool, bool) {
 	return r.Sign() != 0, true
 }
 
+// simp replaces a term by a constant when every variable in it is pinned on this path.
+func (st *State) simp(t *Term) *Term {
+	if t == nil || t.IsConst() || len(st.pinned) == 0 {
+		return t
+	}
+	vars := st.ex.termVars(t)
+	if len(vars) == 0 || len(vars) > 8 {
+		return t
+	}
+	for _, id := range vars {
+		ok := false
+		for _, p := range st.pinnedIDs {
+			if p == id {
+				ok = true
+				break
+			}
+		}
+		if !ok {
+			return t
+		}
+	}
+	r := st.ex.Ctx.Eval(t, st.pinned, nil)
+	if t.W == 0 {
+		return st.ex.Ctx.Bool(r.Sign() != 0)
+	}
+	return st.ex.Ctx.BVBig(t.W, r)
+}
+
+func (st *State) simpSlice(s SliceV) SliceV {
+	s.Off, s.Len, s.Cap = st.simp(s.Off), st.simp(s.Len), st.simp(s.Cap)
+	return s
+}
+
 func (st *State) known(c *Term) (bool, bool) {
 	neg := false
 	for c.Op == OpNot {
